@@ -339,8 +339,10 @@ impl<'a> Interp<'a> {
             _ => return Err(vec![leaf(LeafKind::TooMany, Where::Nowhere, "")]),
         }
         let it = &items[0];
+        // everything found from here on concerns the one nested item: that item is the offending
+        // (or, for an absence, the enclosing) item
         if let Kind::Literal(_) = it.kind {
-            return Err(vec![leaf(LeafKind::LiteralItem, Where::Nowhere, "")]);
+            return Err(vec![leaf(LeafKind::LiteralItem, Where::Item(it.id), "")]);
         }
         let name = path_string(&it.name);
         for v in vs.iter().filter(|v| !v.skip) {
@@ -348,7 +350,7 @@ impl<'a> Interp<'a> {
             if vn != name {
                 continue;
             }
-            return match &v.body {
+            let res = match &v.body {
                 VBody::Unit => {
                     if matches!(it.kind, Kind::Word) {
                         Ok(enum_value(r, v, Value::Null))
@@ -374,6 +376,7 @@ impl<'a> Interp<'a> {
                     }
                 }
             };
+            return res.map_err(|l| span_default(l, Where::Item(it.id)));
         }
         let mut l = leaf(LeafKind::Unknown, Where::Item(it.id), &name);
         l.alts = vs.iter().filter(|v| !v.skip).map(|v| variant_name(r, v)).collect();
